@@ -39,7 +39,8 @@ CHECKS = {
              'The same matrix and trees, plus random depth-6 trees over operands of all nine types with probes, are '
              'evaluated by the real code in expression and statement mode; every recorded run (probe order and values, '
              'result) must be a behaviour of the specification. Each of the 46 expression built-ins is compared with the '
-             'library function the documented table names.',
+             'library function the documented table names.'
+             ' Dedicated families: datetime arithmetic at millisecond and microsecond distances and with far-out-of-range offsets, array ordering, objects with permuted keys, calls of non-functions with effectful arguments.',
         note='Numeric accuracy of / % ** outside the exact dyadic domain is not judged (type-level wildcard); % with a '
              'negative operand and division by zero are allowed sets (DESIGN Appendix A5).',
         ref='DESIGN.md 5 C03'),
@@ -51,7 +52,8 @@ CHECKS = {
              'change only by top-level assignment or function definition. The same family under four host configurations '
              '(pre-populated globals shadowing library names with values and functions), random programs with up to 4 '
              'functions, partials, match-function callbacks and systemGlobalGet/Set, and expression-mode cases with locals '
-             'and globals shadowing built-ins are run by the real code; probes and the final globals object must match.',
+             'and globals shadowing built-ins are run by the real code; probes and the final globals object must match.'
+             ' Random programs also go through source text with free blanks in function headers; host configurations bind library names to null and shadow single library names; the alphabet has a rest-array mutator, a re-entrant partial and if() over locals.',
         note='arraySort comparison callbacks are outside the functional model (call pattern unspecified, A28): such runs are '
              'SKIPped. Reserved names (if/true/false/null) are never used as bindings.',
         ref='DESIGN.md 5 C04'),
@@ -63,7 +65,8 @@ CHECKS = {
              'on/off, and random programs with failing host functions are executed by the real code; a run is rejected '
              'when any exception other than BareScriptRuntimeError/BareScriptParserError escapes, when a non-BareScript '
              'value (e.g. complex) is returned, or - where BareCore models the function - when result, failure value or '
-             'debug-mode failure report differ from the specification.',
+             'debug-mode failure report differ from the specification.'
+             ' Comparison operators are applied to the adversarial operands too; systemFetch is called on every short list of good / missing / throwing locations; host functions fail with six exception types (with and without arguments).',
         note='Functions without a functional model (regex*, schema*, data*, datetime*, json*, math transcendentals, fetch) '
              'are judged for containment only. Library arguments are capped at 1e6 and integer powers with astronomically '
              'large integer exponents are excluded (resource exhaustion is not part of C05).',
@@ -142,7 +145,8 @@ CHECKS = {
              'literals (also fractional), wrong-typed / missing / surplus arguments of every type, plus one-call histories per '
              'function, are parsed and executed by the real code and validated step by step against the specification, including '
              'documented failure values and debug-mode failure reports. regexEscape and urlEncode/urlEncodeComponent are judged '
-             'as relations (matches exactly s; percent-decoding gives back the UTF-8 of s).',
+             'as relations (matches exactly s; percent-decoding gives back the UTF-8 of s).'
+             ' Every function with index / count parameters is called with ALL combinations of boundary values (and non-number values), every function with one surplus argument, the two-container mutators with aliased arguments.',
         note='Case mapping is specified on ASCII, trim on Latin-1 whitespace (other inputs are SKIPped); Python re is the matcher '
              'for the regexEscape clause; containers are never inserted into themselves (cyclic values are outside the model); '
              'arrayDelete\'s return value and systemIs on equal immutable values are left unspecified.',
@@ -155,7 +159,8 @@ CHECKS = {
              'argument lists generated from its own argument model (index, count, size, radix and digit parameters at their '
              'boundaries; values of all types, also inside containers), with ints, with floats and with a mixed spelling (fresh int objects), through '
              'execute_script; TLC judges each triple. Modelled functions are additionally called from rendered source text '
-             '(number literals are parser floats) and validated against BareCore.',
+             '(number literals are parser floats) and validated against BareCore.'
+             ' All 16 operators are run as twins too (operands as host ints / floats / mixed; results compared as doubles), and script-function callbacks pass the number spelling of their operands back into the library.',
         note='For functions without a functional model TLC contributes only the equality under the abstraction (a differential '
              'comparison whose comparator is the specification\'s abstraction), as stated in DESIGN.md.',
         ref='DESIGN.md 5 C12'),
@@ -167,7 +172,8 @@ CHECKS = {
              'and 1..8, and for random values to depth 5 over an alphabet with quotes, backslashes, slashes, control and non-BMP '
              'characters and boundary numbers, the text produced by the real jsonStringify is parsed by the JSON grammar written '
              'in TLA+ and must denote exactly the value (no character altered), with sorted unique keys and integral numbers '
-             'without a fraction; the real jsonParse and Python json.loads must map the text back to the value.',
+             'without a fraction; the real jsonParse and Python json.loads must map the text back to the value.'
+             ' The result of jsonParse must be fresh (a changed result does not change what parsing the same text gives next); number-like strings and keys, zero-leading fractions and string-free containers are enumerated.',
         note='Injectivity on real outputs follows from the parse-back clause (the text determines the value) and is model-checked '
              'for the reference serialiser; CPython float repr is trusted for the digits of non-integral numbers.',
         ref='DESIGN.md 5 C14'),
@@ -195,7 +201,8 @@ CHECKS = {
              'runtime for all 14 641 (132 496) pairs as arrays, LF texts, CRLF texts and mixed parts, plus random pairs up to 40 '
              'lines; TLC splits the inputs into lines itself and decides Reconstructs (block types, non-empty blocks, Identical+Remove '
              '= left, Identical+Add = right, identical inputs give no Add/Remove). Every shipped include script must parse, validate '
-             'against the schema and be lint-clean.',
+             'against the schema and be lint-clean.'
+             ' Array inputs are built from distinct string objects; a third of the exhaustive pairs use multi-character lines and the empty line.',
         note='The shipped script is executed by the real interpreter, so the check also exercises while/continue/break lowering on a '
              'real program.',
         ref='DESIGN.md 5 C20'),
@@ -238,7 +245,8 @@ CHECKS = {
              'structured programs and the shipped scripts: it must not raise, not modify the model, be deterministic; its '
              'unknown-label and redefinition warnings must equal the sets BareLint defines and its unused-* warnings must be '
              'justified by the rules; for every actionable warning the edit is applied to the real model and both models are run by '
-             'the real runtime - status, result, output and final globals must be identical.',
+             'the real runtime - status, result, output and final globals must be identical.'
+             ' A sample of models with several warnings is linted again in four fresh processes with other string-hash seeds: the ordered warning lists must be identical.',
         note='Used-before-assignment and empty-script warnings are parsed but not judged (the property does not constrain them); '
              'edits are skipped when the function name is defined twice (the warning does not identify the statement).',
         ref='DESIGN.md 5 C18'),
@@ -253,7 +261,8 @@ CHECKS = {
              'an expression, in lines of length 0..400 with unique tokens: TLC recomputes the logical lines of the text and requires '
              'the error to name one (text and 1-based number offset by start_line_number), the column to lie between the end of the '
              'last good token + 1 and the fault, and the caret of the (possibly elided) message to sit under that column; prepending '
-             'k lines or raising start_line_number must move only the line number, by k. Mutated programs and token soup: totality.',
+             'k lines or raising start_line_number must move only the line number, by k. Mutated programs and token soup: totality.'
+             ' Structural errors are judged like injected faults (named line, start offsets 1 / 7 / 100); texts of simple statements (repeated lines and includes, continuations, exotic characters inside strings and comments) must yield exactly one statement or include entry per logical line.',
         note='For token soup the specification does not predict which error is raised, only that one is and that it names a '
              'logical line of the text. Statement recognition (which regex a line matches) is taken from the generator\'s line kinds.',
         ref='DESIGN.md 5 C06'),
